@@ -313,6 +313,30 @@ def handle (req : Json) : Except String Json := do
     match batchF size (items.map (·.record)) with
     | .error e => pure (obj [("err", Json.str (errName e))])
     | .ok bs => pure (obj [("batches", ofList batchedJson bs), ("unbatched", ofList recJson (unbatchF bs))])
+  | "cachepipe" =>
+    -- pipelines  env → [pre] → shared Cache(nslice) → D_i  read in a given order; a read = [inner|null, need|null, consumed|null]
+    let ns ← nat (← field req "nslice")
+    let base ← match req.getObjVal? "pre" with
+      | .ok Json.null => pure items
+      | .ok p => do
+        let f ← parseInner p
+        match f items with
+        | .ok l => pure l
+        | .error e => throw s!"pre filter raised {errName e}"
+      | .error _ => pure items
+    let reads ← (← arr (← field req "reads")).mapM (fun p => do
+      match p with
+      | .arr #[inner, need, c] =>
+        let f ← match inner with
+          | Json.null => pure (fun (xs : List Item) => (Except.ok xs : Except Err (List Item)))
+          | j => parseInner j
+        let c ← opt nat c
+        let D : List Item → Except Err (List Item) := fun xs => match f xs, c with
+          | .ok l, some k => .ok (l.take k)
+          | r, _ => r
+        pure (← opt nat need, D)
+      | _ => throw "read [inner, need, consumed] expected")
+    pure (obj [("reads", ofList outIds (cachedRun ns base none reads)), ("base", ids base)])
   | "cache" =>
     let ns ← nat (← field req "nslice")
     let reads ← (← arr (← field req "reads")).mapM (opt nat)
